@@ -321,6 +321,8 @@ def gen_plan(seed, tier):
                for _ in range(12)],
     "recv_mode": r.pick(["all", "all", "choose"]),
     "shuffle": r.chance(0.3),
+    # scripted raises use an exception outside the Exception hierarchy
+    "boom_base": r.chance(0.25),
   }
   g = _Gen(r, ntask, nlock, w)
   steps = []
@@ -426,10 +428,23 @@ def minimise_hint(plan):
 # harness objects
 # ---------------------------------------------------------------------------
 
-class HarnessErr(Exception):
+class HarnessErrE(Exception):
   def __init__(self, tag):
     Exception.__init__(self, tag)
     self.tag = tag
+
+
+class HarnessErrB(BaseException):
+  """the same, outside the Exception hierarchy (what sys.exit() in a task
+  or a generator close would raise): used by the runs with cfg.boom_base"""
+  def __init__(self, tag):
+    BaseException.__init__(self, tag)
+    self.tag = tag
+
+
+HarnessErrE.__name__ = HarnessErrB.__name__ = "HarnessErr"
+_HE = (HarnessErrE, HarnessErrB)
+HarnessErr = HarnessErrE      # rebound per run (see run_plan)
 
 
 def _stream(idx, off, n):
@@ -624,7 +639,10 @@ def _interp(O, L, prog, depth, path, holder):
     if op == "raise":
       tag = "t%d.%s" % (L.tno, ".".join(str(x) for x in path + (i,)))
       O.frame_exit(L, fr, "exc", tag)
-      raise HarnessErr(tag)
+      # (inside a sub-task always an ordinary exception: whether anything
+      # outside the Exception hierarchy is handed to the caller or treated
+      # like an interpreter exit is not something the statement decides)
+      raise (HarnessErr if depth == 0 else HarnessErrE)(tag)
     if op == "exit":
       break
     if op == "ret":
@@ -717,7 +735,7 @@ class Oracle(object):
     while tb is not None:
       last = tb
       tb = tb.tb_next
-    if (last is not None and not isinstance(e, HarnessErr)
+    if (last is not None and not isinstance(e, _HE)
         and last.tb_frame.f_code.co_filename == __file__):
       import traceback
       self.herr = "".join(traceback.format_exception(type(e), e,
@@ -729,7 +747,7 @@ class Oracle(object):
     if L is not None:
       if L.ignore:
         return
-      if (isinstance(e, HarnessErr) and obj is L.root
+      if (isinstance(e, _HE) and obj is L.root
           and L.expect_raise == e.tag):
         L.dead = True
         obj._c06_done = True
@@ -760,7 +778,7 @@ class Oracle(object):
               L.ignore = L.dead = True
               self.expected_deaths.append(("RuntimeError", str(e)))
             return
-          if kind == "exc" and isinstance(e, HarnessErr) and e.tag == val:
+          if kind == "exc" and isinstance(e, _HE) and e.tag == val:
             if self.known_or_fail(
                 KF_TARGET, "target_task_exception_not_forwarded",
                 "task %d step %d (again): the caller is a Task(target=...) "
@@ -791,7 +809,7 @@ class Oracle(object):
                 % (L.tno, msg, w["k"] if w else "nothing"))
       return
     if tm is not None:
-      if isinstance(e, HarnessErr) and tm.expect_raise:
+      if isinstance(e, _HE) and tm.expect_raise:
         tm.dead = True
         tm.expect_raise = False
         self.expected_deaths.append(("HarnessErr", e.tag))
@@ -1342,7 +1360,7 @@ class Oracle(object):
         self.fail("again_value", where + ": sub-task ended without a value, "
                   "caller received %s" % _kind(v, e))
     elif kind == "exc":
-      if isinstance(e, HarnessErr) and e.tag == val:
+      if isinstance(e, _HE) and e.tag == val:
         self.P["again_exc"] += 1
         if w.get("prop"):
           return val
@@ -1568,8 +1586,12 @@ def _install_shims(O):
 
 def run_plan(plan):
   cfg = plan["cfg"]
+  globals()["HarnessErr"] = HarnessErrB if cfg.get("boom_base") \
+      else HarnessErrE
   sim = S.Sim(mix(plan["seed"], "run"), calm=plan.get("calm", False))
   S.install(sim)
+  if cfg.get("boom_base"):
+    sim.probes["raise_is_baseexception"] += 1
   sched = S.new_scheduler(sim)
   sim.cycle_cap = 8000
   sim.cpu_cost_ticks = cfg.get("cpu", 0)
@@ -1606,7 +1628,7 @@ def run_plan(plan):
       tb = tb.tb_next
     import traceback
     txt = "".join(traceback.format_exception(type(e), e, e.__traceback__))
-    if not isinstance(e, HarnessErr) and (
+    if not isinstance(e, _HE) and (
         last is not None and last.tb_frame.f_code.co_filename == __file__
         or isinstance(e, S.WouldBlock)):
       O.herr = txt[-2500:]
